@@ -161,6 +161,7 @@ func (p Plan) Validate(ctx context.Context, n int, pb ProgressBar) (err error) {
 		})
 	}
 
+	var interrupted bool
 loop:
 	for _, s := range p {
 		if !s.isFileSeed() {
@@ -169,11 +170,19 @@ loop:
 		}
 		select {
 		case <-ctx.Done():
+			interrupted = true
 			break loop
 		case in <- Job{s, fileMap[s.source.FileName()]}:
 		}
 	}
 	close(in)
 
-	return g.Wait()
+	if err := g.Wait(); err != nil {
+		return err
+	}
+	if interrupted {
+		// Not all segments were validated
+		return Interrupted{}
+	}
+	return nil
 }
